@@ -65,11 +65,21 @@ func funcArrayLen(ctx *Context, this *VMValue, params []*VMValue) *VMValue {
 	return NewIntVal(IntType(len(arr.List)))
 }
 
+// ctxRandIntn returns a number in [0,n) drawn from the context's generator
+// (the package generator when the context is unseeded), like the dice do.
+func ctxRandIntn(ctx *Context, n int) int {
+	var src *rand.PCGSource
+	if ctx != nil {
+		src = ctx.RandSrc
+	}
+	return int(Roll(src, IntType(n), 0)) - 1
+}
+
 func funcArrayShuttle(ctx *Context, this *VMValue, params []*VMValue) *VMValue {
 	arr, _ := this.ReadArray()
 	lst := arr.List
 	for i := len(lst) - 1; i > 0; i-- { // Fisher–Yates shuffle
-		j := rand.Intn(i + 1)
+		j := ctxRandIntn(ctx, i+1)
 		lst[i], lst[j] = lst[j], lst[i]
 	}
 	return this
@@ -81,7 +91,7 @@ func funcArrayRand(ctx *Context, this *VMValue, params []*VMValue) *VMValue {
 		ctx.Error = errors.New("(arr.rand)数组为空")
 		return nil
 	}
-	return arr.List[rand.Intn(len(arr.List))]
+	return arr.List[ctxRandIntn(ctx, len(arr.List))]
 }
 
 func funcArrayRandSize(ctx *Context, this *VMValue, params []*VMValue) *VMValue {
